@@ -52,6 +52,8 @@ pub struct W3Case {
 const LIT: &[&str] = &[
     "/", "/a", "/ab", "/abc", "/a/b", "/api/", "/blog/", "/blog/post-", "/b", "/x.y", "/q?a=", "/p(1)", "/c+", "/d?e", "\\w", "/é", "/é/a", "/日本/", "/ü-",
     "shop.", ".example.com", "www.", "a|b", "[x]", "{2}", "^s$", "#f", "&g=", "~", "-", "_", "/A", "/aB", "é", "ñ/",
+    // lone and unbalanced parentheses, backslashes: escaped by the template compiler, they must not count as groups
+    ":)", ":(", ")", "(", "/)/", "a(b", "))", "((", "()", ")(", "\\", "/\\(", "\\)", "x\\y",
 ];
 
 struct MarkerKind {
